@@ -221,7 +221,7 @@ theorem count_one (s : Step) : [s].countP tsStep ≤ 1 := by
   split <;> omega
 
 theorem orderAgg_count (a : VecAgg) (h : a.inner.isUnwrap = false) : (orderAgg a).countP tsStep ≤ 1 := by
-  have := count_one (Step.agg a.fn (chosenGrouping a.byPrefix a.bySuffix))
+  have := count_one (Step.agg a.fn (some (aggGrouping a)))
   simp only [orderAgg, List.countP_append, orderRange_count a.inner h, cmpStep_count]
   omega
 
@@ -275,10 +275,10 @@ theorem shortcutOrder_shape (q : MetricQuery) (fn : RangeFn) (h : q.rangeAgg.kin
     simpa [shortcutOrder, MetricQuery.rangeAgg] using shortcutRange_lra r fn h
   | agg a =>
     have hr := shortcutRange_lra a.inner fn h
-    refine ⟨cmpStep a.inner.cmp ++ [Step.agg a.fn (chosenGrouping a.byPrefix a.bySuffix)] ++ cmpStep a.cmp, ?_, ?_, ?_⟩
+    refine ⟨cmpStep a.inner.cmp ++ [Step.agg a.fn (some (aggGrouping a))] ++ cmpStep a.cmp, ?_, ?_, ?_⟩
     · simp [shortcutOrder, shortcutAgg, hr, MetricQuery.rangeAgg]
     · exact NoSC.append (NoSC.append (cmpStep_noShortcut _) (NoSC.cons rfl NoSC.nil)) (cmpStep_noShortcut _)
-    · have := count_one (Step.agg a.fn (chosenGrouping a.byPrefix a.bySuffix))
+    · have := count_one (Step.agg a.fn (some (aggGrouping a)))
       simp only [List.countP_append, cmpStep_count]
       omega
   | topk t =>
@@ -293,12 +293,12 @@ theorem shortcutOrder_shape (q : MetricQuery) (fn : RangeFn) (h : q.rangeAgg.kin
     | agg a =>
       have h' : a.inner.kind = .lra fn := by simpa [MetricQuery.rangeAgg, TopInner.rangeAgg, hi] using h
       have hr := shortcutRange_lra a.inner fn h'
-      refine ⟨cmpStep a.inner.cmp ++ [Step.agg a.fn (chosenGrouping a.byPrefix a.bySuffix)] ++ cmpStep a.cmp ++
+      refine ⟨cmpStep a.inner.cmp ++ [Step.agg a.fn (some (aggGrouping a))] ++ cmpStep a.cmp ++
         [Step.topk t.isTop t.k] ++ cmpStep t.cmp, ?_, ?_, ?_⟩
       · simp [shortcutOrder, shortcutAgg, hi, hr, MetricQuery.rangeAgg, TopInner.rangeAgg]
       · exact NoSC.append (NoSC.append (NoSC.append (NoSC.append (cmpStep_noShortcut _) (NoSC.cons rfl NoSC.nil))
           (cmpStep_noShortcut _)) (NoSC.cons rfl NoSC.nil)) (cmpStep_noShortcut _)
-      · have := count_one (Step.agg a.fn (chosenGrouping a.byPrefix a.bySuffix))
+      · have := count_one (Step.agg a.fn (some (aggGrouping a)))
         have h2 : [Step.topk t.isTop t.k].countP tsStep = 0 := rfl
         simp only [List.countP_append, cmpStep_count, h2]
         omega
